@@ -25,6 +25,8 @@ def run_batch(spec):
         gen = mudslide.TrajGenNormal(spec["x0"], spec["k"], spec.get("state", 0), spec["sigma"], seed=spec["seed"], seed_traj=spec["seed"] + 1)
     kw = dict(samples=spec["samples"], dt=spec["dt"], bounds=[-abs(spec["box"]), abs(spec["box"])],
               max_steps=spec.get("max_steps", 4000), trace_every=spec.get("every", 1))
+    if spec.get("zeta_list") is not None:
+        kw["zeta_list"] = list(spec["zeta_list"])
     if spec["cls"] == "EvenSamplingTrajectory":
         kw["spawn_stack"] = spec.get("stack", [3])
         kw["quadrature"] = spec.get("quadrature", "gl")
@@ -166,7 +168,53 @@ def oracle_cli(args):
         "; ".join(problems[:2]) or "ok"
 
 
-ORACLES = {"batch": oracle_batch, "cli": oracle_cli}
+@safe_oracle
+def oracle_continue(args):
+    """the table is asked for, the trajectories are then continued from the very trace objects the manager holds (restart), and the
+    table is asked for again: both times it equals the weight-normalised frequencies of the traces' CURRENT final snapshots"""
+    import mudslide
+    model = mudslide.models.scattering_models[args["model"]]()
+    tmp = None
+    tm = None
+    try:
+        if args.get("store") == "yaml":
+            tmp = tempfile.mkdtemp(prefix="verif-c17c-")
+            tm = mudslide.TraceManager(TraceType=mudslide.YAMLTrace, trace_kwargs={"location": tmp, "log_pitch": 16})
+        gen = mudslide.TrajGenConst(args["x0"], args["k"], 0, seed=args["seed"])
+        b = mudslide.BatchedTraj(model, gen, mudslide.TrajectorySH, tracemanager=tm, samples=args["samples"], dt=args["dt"],
+                                 max_time=args["t1"], bounds=[-100.0, 100.0])
+        res = b.compute()
+        problems = []
+
+        def table(tmgr):
+            ends = ends_of(tmgr)
+            W = sum(e["weight"] for e in ends)
+            t = np.zeros((model.nstates(), 2))
+            c = np.zeros((model.nstates(), 2))
+            for e in ends:
+                t[e["active"], 0 if e["pos0"] < 0.0 else 1] += e["weight"] / W
+                c[e["active"], 0 if e["pos0"] < 0.0 else 1] += 1.0
+            return t, c
+        for stage in ("first", "after-continue"):
+            want, cnt = table(res)
+            got = np.asarray(res.outcome(), dtype=np.float64)
+            if not allclose(got, want, 1.0, rtol=1e-12):
+                problems.append("%s: outcome() %r, the traces' final snapshots give %r" % (stage, got.tolist(), want.tolist()))
+            gc = np.asarray(res.counts(), dtype=np.float64)
+            if not np.array_equal(gc, cnt):
+                problems.append("%s: counts() %r, the traces give %r" % (stage, gc.tolist(), cnt.tolist()))
+            if stage == "first":
+                for tr in res.traces:
+                    t2 = mudslide.TrajectorySH.restart(model, tr, dt=args["dt"], max_time=args["t2"], bounds=[-args["box"], args["box"]],
+                                                       seed_sequence=args["seed"] + 17)
+                    t2.simulate()
+        return not problems, {"problems": problems[:3]}, {"problems": []}, "; ".join(problems[:2]) or "ok"
+    finally:
+        if tmp:
+            shutil.rmtree(tmp, ignore_errors=True)
+
+
+ORACLES = {"batch": oracle_batch, "cli": oracle_cli, "continue": oracle_continue}
 
 
 def _specs(ctx, count):
@@ -255,6 +303,30 @@ def run(ctx):
             if "counts() raised TypeError" in text or "summarize() raised TypeError" in text:
                 sig = "counts-summarize-typeerror"
             ctx.oracle_fail(sig, "batch", spec, obs, req, text)
+
+    # batches in which EVERY trajectory hops at least once (the hop-count histogram has no zero-hop entry)
+    for i in range(ctx.budget(3, 40)):
+        # thresholds supplied: the first one is tiny (every trajectory hops at its first opportunity), the later ones moderate,
+        # and the initial momenta differ (normal generator), so the hop counts are >= 1 and not all equal
+        spec = dict(model=["simple", "dual", "simple"][i % 3], cls="TrajectorySH", x0=-6.0, k=float(ctx.rng.uniform(24, 30)),
+                    seed=int(ctx.rng.integers(1, 2 ** 31)), samples=6, dt=10.0, box=4.0, gen="normal", sigma=float(ctx.rng.uniform(0.3, 0.6)),
+                    zeta_list=[1e-9] + [float(v) for v in ctx.rng.random(400) * 0.25])
+        ok, obs, req, text = oracle_batch(spec)
+        ctx.case(("batch-all-hop", spec["model"]))
+        ctx.count("batches_high_momentum")
+        if "ends" in obs and min(e["nhops"] for e in obs["ends"]) >= 1:
+            ctx.count("batches_where_every_trajectory_hopped")
+        if not ok:
+            ctx.oracle_fail("batch-stats", "batch", spec, obs, req, text)
+    # tables asked for, trajectories continued from the manager's own trace objects, tables asked for again (both stores)
+    for i in range(ctx.budget(2, 20)):
+        a = dict(model="simple", x0=-6.0, k=float(ctx.rng.uniform(12, 20)), seed=int(ctx.rng.integers(1, 2 ** 31)), samples=4, dt=20.0,
+                 t1=300.0, t2=4000.0, box=5.0, store=["yaml", "memory"][i % 2])
+        ok, obs, req, text = oracle_continue(a)
+        ctx.case(("continue", a["store"]))
+        ctx.count("continue:" + a["store"])
+        if not ok:
+            ctx.oracle_fail("outcome-after-continue:" + a["store"], "continue", a, obs, req, text)
 
     # command-line driver rows
     for i in range(ctx.budget(3, 20)):
